@@ -1,6 +1,7 @@
 (* Round trip, nested level: the block-skeleton parser of Lang/Lex.v ([parse_m], the model of
    _parse_simple_lines) applied to ANY layout inside the guard of Lang/Layout.v gives back the
-   skeleton.  Hence two layouts of the same skeleton are parsed alike. *)
+   skeleton.  Hence two layouts of the same skeleton are parsed alike.  Column 0 of the script
+   (parse()): a trailing comment on any line is invisible. *)
 From Coq Require Import ZArith List Bool Lia Arith.
 From RV Require Import Base.Wire Base.Text Lang.Lex Lang.PyLayout Lang.Layout Proofs.RelayoutP.
 Import ListNotations.
@@ -13,13 +14,13 @@ Proof. reflexivity. Qed.
 
 Lemma parse_m_cons f m raw rest :
   parse_m (S f) m (raw :: rest) =
-  match probe m raw (strip raw) with
+  let s := strip (strip_inline_comment raw) in
+  match probe m raw s with
   | PSkip => parse_m (S f) m rest
   | PBranch k next =>
       let blk := take_block (indent_of raw) rest in
-      NBlock k (strip raw) blk (parse_m f MMain blk) :: parse_m f next (skipn (length blk) rest)
+      NBlock k s blk (parse_m f MMain blk) :: parse_m f next (skipn (length blk) rest)
   | PNone =>
-      let s := strip (strip_inline_comment raw) in
       if is_nil s || starts_hash s then parse_m (S f) MMain rest
       else match classify s with
            | Some k =>
@@ -33,6 +34,9 @@ Proof. reflexivity. Qed.
 
 (* ================================================================ take_block = longest prefix of deep lines *)
 
+(* deep b l: the line cannot end a block whose header has indentation b *)
+Definition deep (b : nat) (l : text) : bool := junk l || (b <? indent_of l)%nat.
+
 Fixpoint drop_block (base : nat) (ls : list text) : list text :=
   match ls with
   | [] => []
@@ -41,7 +45,7 @@ Fixpoint drop_block (base : nat) (ls : list text) : list text :=
 
 Lemma take_block_deep b l r : take_block b (l :: r) = if deep b l then l :: take_block b r else [].
 Proof.
-  cbn [take_block]. unfold deep. destruct (is_blank l); [reflexivity|]. cbn [orb].
+  cbn [take_block]. unfold deep. destruct (junk l); [reflexivity|]. cbn [orb].
   destruct (Nat.leb_spec (indent_of l) b) as [H|H]; destruct (Nat.ltb_spec b (indent_of l)) as [H'|H']; try lia; reflexivity.
 Qed.
 
@@ -65,101 +69,30 @@ Proof.
   cbn [app drop_block]. rewrite Hx. exact (IH Hr).
 Qed.
 
-(* a list of junk lines followed by a line that is not deep (or by nothing): how take_block splits it *)
-Lemma split_pre b (P : text -> bool) : forall pre, forallb P pre = true ->
-  exists A B, pre = A ++ B /\ forallb (deep b) A = true /\ forallb P A = true /\ forallb P B = true /\
-    (forallb (deep b) pre = true -> B = []) /\
-    (take_block b pre = A /\ drop_block b pre = B) /\
-    (forall l X, deep b l = false -> take_block b (pre ++ l :: X) = A /\ drop_block b (pre ++ l :: X) = B ++ l :: X).
+Lemma forallb_impl {A} (P Q : A -> bool) l : (forall x, P x = true -> Q x = true) -> forallb P l = true -> forallb Q l = true.
+Proof. intros H HP. rewrite forallb_forall in *. intros x Hx. apply H, HP, Hx. Qed.
+
+(* a junk line (blank or comment-only, at any column) never ends a block *)
+Lemma junk_deep b l : junk l = true -> deep b l = true.
+Proof. unfold deep. intros ->. reflexivity. Qed.
+
+Lemma junk_all_deep b ls : forallb junk ls = true -> forallb (deep b) ls = true.
+Proof. apply forallb_impl. intros x Hx. exact (junk_deep b x Hx). Qed.
+
+Lemma take_block_all b X : forallb (deep b) X = true -> take_block b X = X /\ drop_block b X = [].
 Proof.
-  induction pre as [|x r IH]; intro HP.
-  - exists [], []. repeat split; try reflexivity.
-    + cbn [app]. rewrite take_block_deep, H. reflexivity.
-    + cbn [app drop_block]. rewrite H. reflexivity.
-  - cbn [forallb] in HP. apply andb_true_iff in HP as [Hx Hr].
-    destruct (deep b x) eqn:Ed.
-    + destruct (IH Hr) as (A & B & E & HA & HPA & HPB & Hall & [Ht Hd] & Hs).
-      exists (x :: A), B. repeat split.
-      * cbn [app]. rewrite E. reflexivity.
-      * cbn [forallb]. rewrite Ed, HA. reflexivity.
-      * cbn [forallb]. rewrite Hx, HPA. reflexivity.
-      * exact HPB.
-      * intro H. cbn [forallb] in H. apply andb_true_iff in H as [_ H]. exact (Hall H).
-      * rewrite take_block_deep, Ed, Ht. reflexivity.
-      * cbn [drop_block]. rewrite Ed. exact Hd.
-      * cbn [app]. rewrite take_block_deep, Ed. destruct (Hs l X H) as [-> _]. reflexivity.
-      * cbn [app drop_block]. rewrite Ed. destruct (Hs l X H) as [_ ->]. reflexivity.
-    + exists [], (x :: r). repeat split; try reflexivity.
-      * cbn [forallb]. rewrite Hx, Hr. reflexivity.
-      * intro H. cbn [forallb] in H. rewrite Ed in H. discriminate.
-      * rewrite take_block_deep, Ed. reflexivity.
-      * cbn [drop_block]. rewrite Ed. reflexivity.
-      * cbn [app]. rewrite take_block_deep, Ed. reflexivity.
-      * cbn [app drop_block]. rewrite Ed. reflexivity.
+  intro H. rewrite <- (app_nil_r X) at 1 3. rewrite (take_block_app b X [] H), (drop_block_app b X [] H).
+  cbn [take_block drop_block]. rewrite app_nil_r. split; reflexivity.
 Qed.
 
-(* ================================================================ junk lines are skipped *)
+(* ================================================================ junk lines are skipped, the mode is kept *)
 
-Lemma starts_hash_lstrip_sic l : comment_only l = true -> strip (strip_inline_comment l) = [].
+Lemma skip_junk f m l rest : junk l = true -> parse_m (S f) m (l :: rest) = parse_m (S f) m rest.
 Proof.
-  unfold comment_only. intro H. destruct (lstrip_split l) as (w & Hw & E).
-  destruct (lstrip l) as [|c q] eqn:El; [discriminate|]. cbn [starts_hash] in H. apply Z.eqb_eq in H. subst c.
-  unfold strip_inline_comment. rewrite E, (sic_cut_blank_app w _ Hw).
-  cbn [sic_cut]. unfold ch_bslash, ch_squote, ch_dquote, ch_hash. cbn [Z.eqb Pos.eqb andb negb option_map].
-  rewrite app_nil_r. unfold strip.
-  assert (Hr : rstrip w = []) by (apply rstrip_nil_blank; exact Hw).
-  rewrite Hr. reflexivity.
-Qed.
-
-Lemma blank_strip l : is_blank l = true -> strip l = [].
-Proof. intro H. unfold strip. rewrite (lstrip_blank l H). reflexivity. Qed.
-
-Lemma blank_sic l : is_blank l = true -> strip_inline_comment l = l.
-Proof. intro H. unfold strip_inline_comment. rewrite (sic_cut_blank l H). reflexivity. Qed.
-
-Lemma re_kw_cond_first kw t c q : kw = c :: q ->
-  match t with x :: _ => (x =? c) = false | [] => True end -> re_kw_cond kw t = false.
-Proof.
-  intros -> H. unfold re_kw_cond. destruct t as [|x r]; [reflexivity|]. cbn [drop_prefix].
-  rewrite Z.eqb_sym, H. reflexivity.
-Qed.
-Lemma re_kw_colon_first kw t c q : kw = c :: q ->
-  match t with x :: _ => (x =? c) = false | [] => True end -> re_kw_colon kw t = false.
-Proof.
-  intros -> H. unfold re_kw_colon. destruct t as [|x r]; [reflexivity|]. cbn [drop_prefix].
-  rewrite Z.eqb_sym, H. reflexivity.
-Qed.
-
-Lemma strip_comment_head l : comment_only l = true -> exists q, strip l = ch_hash :: q.
-Proof.
-  unfold comment_only. intro H. unfold strip. destruct (lstrip l) as [|c q]; [discriminate|].
-  cbn [starts_hash] in H. apply Z.eqb_eq in H. subst c.
-  cbn [rstrip]. unfold ch_hash at 1. cbn [is_space Z.leb Z.eqb Z.compare Pos.compare Pos.compare_cont andb orb].
-  eexists. reflexivity.
-Qed.
-
-Lemma probe_comment m l : comment_only l = true -> probe m l (strip l) = PNone.
-Proof.
-  intro H. destruct (strip_comment_head l H) as [q E]. rewrite E.
-  destruct m as [|base|base]; [reflexivity| |]; cbn [probe is_nil].
-  - destruct (negb (indent_of l =? base)%nat); [reflexivity|].
-    unfold re_elif, re_else, kw_elif, kw_else, ch_hash. cbn. reflexivity.
-  - destruct (negb (indent_of l =? base)%nat); [reflexivity|].
-    unfold re_except, kw_except, ch_hash. cbn. reflexivity.
-Qed.
-
-Lemma skip_junk f m l rest : junk l = true ->
-  exists m', (m' = m \/ m' = MMain) /\ parse_m (S f) m (l :: rest) = parse_m (S f) m' rest.
-Proof.
-  unfold junk. intro H. rewrite parse_m_cons.
-  destruct (is_blank l) eqn:Eb.
-  - rewrite (blank_strip l Eb), (blank_sic l Eb), (blank_strip l Eb).
-    destruct m as [|base|base]; cbn [probe is_nil orb].
-    + exists MMain. split; [left; reflexivity|reflexivity].
-    + exists (MIf base). split; [left; reflexivity|reflexivity].
-    + exists (MTry base). split; [left; reflexivity|reflexivity].
-  - cbn [orb] in H. rewrite (probe_comment m l H), (starts_hash_lstrip_sic l H). cbn [is_nil orb].
-    exists MMain. split; [right; reflexivity|reflexivity].
+  intro H. rewrite parse_m_cons. cbv zeta.
+  pose proof (probe_blank_is_junk l) as E. rewrite H in E.
+  destruct (strip (strip_inline_comment l)) as [|c q]; [|discriminate].
+  destruct m; reflexivity.
 Qed.
 
 Lemma parse_all_junk f : forall js m, forallb junk js = true -> parse_m f m js = [].
@@ -167,22 +100,15 @@ Proof.
   destruct f as [|f]; [reflexivity|].
   induction js as [|l r IH]; intros m H; [reflexivity|].
   cbn [forallb] in H. apply andb_true_iff in H as [Hl Hr].
-  destruct (skip_junk f m l r Hl) as (m' & _ & E). rewrite E. apply IH. exact Hr.
+  rewrite (skip_junk f m l r Hl). apply IH. exact Hr.
 Qed.
 
-(* skipping the junk lines in front of a statement: the mode stays or falls back to MMain;
-   it stays when there is no junk line *)
 Lemma skip_pre f : forall pre m L, forallb junk pre = true ->
-  exists m', (m' = m \/ m' = MMain) /\ (pre = [] -> m' = m) /\ parse_m (S f) m (pre ++ L) = parse_m (S f) m' L.
+  parse_m (S f) m (pre ++ L) = parse_m (S f) m L.
 Proof.
-  induction pre as [|l r IH]; intros m L H.
-  - exists m. split; [left; reflexivity|split; [reflexivity|reflexivity]].
-  - cbn [forallb] in H. apply andb_true_iff in H as [Hl Hr].
-    destruct (skip_junk f m l (r ++ L) Hl) as (m1 & Hm1 & E1).
-    destruct (IH m1 L Hr) as (m2 & Hm2 & _ & E2).
-    exists m2. split; [|split; [discriminate|]].
-    + destruct Hm2 as [Hm2|Hm2]; subst m2; [exact Hm1|right; reflexivity].
-    + cbn [app]. rewrite E1. exact E2.
+  induction pre as [|l r IH]; intros m L H; [reflexivity|].
+  cbn [forallb] in H. apply andb_true_iff in H as [Hl Hr].
+  cbn [app]. rewrite (skip_junk f m l (r ++ L) Hl). exact (IH m L Hr).
 Qed.
 
 (* ================================================================ sizes, guard unfolding *)
@@ -200,26 +126,13 @@ Proof. reflexivity. Qed.
 Lemma tsize_pos n : (1 <= tsize n)%nat.
 Proof. destruct n; [cbn; lia|rewrite tsize_block; lia]. Qed.
 
-Lemma wf_tree_block ind top d pre k h tr body :
-  wf_tree ind top d (LBlock pre k h tr body) =
-  forallb (junk_ok (if is_cont k then Some (iind ind d) else jbound ind d)) pre
-  && stmt_ok h && hdr_ok k h && trail_ok (negb (is_cont k) && negb top) tr
-  && wf_seq ind false (S d) CNone body.
+Lemma wf_tree_block pre k h tr body :
+  wf_tree (LBlock pre k h tr body) =
+  forallb junk pre && stmt_ok h && hdr_ok k h && trail_ok true tr && wf_seq CNone body.
 Proof.
-  cbn [wf_tree]. f_equal. generalize CNone. induction body as [|m r IH]; intro c; [reflexivity|].
-  cbn [wf_seq]. rewrite <- IH. reflexivity.
-Qed.
-
-Lemma junk_ok_junk b l : junk_ok b l = true -> junk l = true.
-Proof. unfold junk_ok. intro H. apply andb_true_iff in H as [H _]. exact H. Qed.
-
-Lemma forallb_impl {A} (P Q : A -> bool) l : (forall x, P x = true -> Q x = true) -> forallb P l = true -> forallb Q l = true.
-Proof. intros H HP. rewrite forallb_forall in *. intros x Hx. apply H, HP, Hx. Qed.
-
-Lemma deep_weaken b b' l : (b <= b')%nat -> deep b' l = true -> deep b l = true.
-Proof.
-  unfold deep. intros Hle H. destruct (is_blank l); [reflexivity|]. cbn [orb] in *.
-  apply Nat.ltb_lt in H. apply Nat.ltb_lt. lia.
+  cbn [wf_tree]. f_equal.
+  all: generalize CNone; induction body as [|m r IH]; intro c; [reflexivity|];
+       cbn [wf_seq]; rewrite <- IH; reflexivity.
 Qed.
 
 Lemma clash_drop p : forall s y, clash p s = true -> drop_prefix p (s ++ y) = None.
@@ -231,24 +144,35 @@ Qed.
 
 (* ================================================================ one statement line *)
 
+Lemma line_not_junk w s tr : ws_only w = true -> stmt_ok s = true -> junk (w ++ s ++ tr) = false.
+Proof.
+  intros Hw Hs. unfold junk, comment_only. rewrite (line_not_blank w s tr Hs). cbn [orb].
+  rewrite (lstrip_blank_app w _ (ws_only_blank w Hw)).
+  destruct (stmt_parts s Hs) as (c & q & E & Hsp & Hh & _). rewrite E. cbn [app]. rewrite (lstrip_nonspace c _ Hsp).
+  cbn [starts_hash]. apply Z.eqb_neq. exact Hh.
+Qed.
+
 Section Line.
   Variables (w s tr : text).
   Hypothesis Hw : ws_only w = true.
   Hypothesis Hs : stmt_ok s = true.
   Hypothesis Hnc : no_cont s = true.
+  Hypothesis Ht : trail_ok true tr = true.
 
-  Lemma probe_stmt m : probe m (w ++ s ++ tr) (strip (w ++ s ++ tr)) = PNone.
+  (* an ordinary statement is never taken for elif / else / except *)
+  Lemma probe_stmt m raw : probe m raw s = PNone.
   Proof.
-    destruct (line_strip_prefix w s tr Hw Hs) as [y Ey]. rewrite Ey.
     destruct (stmt_parts s Hs) as (c & q & E & _).
     unfold no_cont in Hnc. apply andb_true_iff in Hnc as [H12 H3]. apply andb_true_iff in H12 as [H1 H2].
+    pose proof (clash_drop _ s [] H1) as D1. pose proof (clash_drop _ s [] H2) as D2. pose proof (clash_drop _ s [] H3) as D3.
+    rewrite app_nil_r in D1, D2, D3.
     destruct m as [|base|base]; [reflexivity| |]; cbn [probe].
-    - replace (is_nil (s ++ y)) with false by (rewrite E; reflexivity).
-      destruct (negb (indent_of (w ++ s ++ tr) =? base)%nat); [reflexivity|].
-      unfold re_elif, re_else, re_kw_cond, re_kw_colon. rewrite (clash_drop _ s y H1), (clash_drop _ s y H2). reflexivity.
-    - replace (is_nil (s ++ y)) with false by (rewrite E; reflexivity).
-      destruct (negb (indent_of (w ++ s ++ tr) =? base)%nat); [reflexivity|].
-      unfold re_except. rewrite (clash_drop _ s y H3). reflexivity.
+    - replace (is_nil s) with false by (rewrite E; reflexivity).
+      destruct (negb (indent_of raw =? base)%nat); [reflexivity|].
+      unfold re_elif, re_else, re_kw_cond, re_kw_colon. rewrite D1, D2. reflexivity.
+    - replace (is_nil s) with false by (rewrite E; reflexivity).
+      destruct (negb (indent_of raw =? base)%nat); [reflexivity|].
+      unfold re_except. rewrite D3. reflexivity.
   Qed.
 
   Lemma stmt_not_nil_hash : is_nil s || starts_hash s = false.
@@ -257,45 +181,48 @@ Section Line.
     apply Z.eqb_neq. exact Hh.
   Qed.
 
-  Lemma leaf_step f m rest : trail_ok true tr = true -> classify s = None ->
+  Lemma leaf_step f m rest : classify s = None ->
     parse_m (S f) m ((w ++ s ++ tr) :: rest) = NLeaf s :: parse_m (S f) MMain rest.
   Proof.
-    intros Ht Hc. rewrite parse_m_cons, probe_stmt. cbv zeta.
-    rewrite (line_code w s tr Hw Hs Ht), stmt_not_nil_hash, Hc. reflexivity.
+    intros Hc. rewrite parse_m_cons. cbv zeta.
+    rewrite (line_code w s tr Hw Hs Ht), probe_stmt, stmt_not_nil_hash, Hc. reflexivity.
   Qed.
 
-  Lemma block_step f m rest k : trail_ok true tr = true -> classify s = Some k ->
+  Lemma block_step f m rest k : classify s = Some k ->
     parse_m (S f) m ((w ++ s ++ tr) :: rest) =
     NBlock k s (take_block (indent_of w) rest) (parse_m f MMain (take_block (indent_of w) rest))
       :: parse_m f (mode_after k (indent_of w)) (skipn (length (take_block (indent_of w) rest)) rest).
   Proof.
-    intros Ht Hc. rewrite parse_m_cons, probe_stmt. cbv zeta.
-    rewrite (line_code w s tr Hw Hs Ht), stmt_not_nil_hash, Hc, (line_indent w s tr Hw Hs). reflexivity.
+    intros Hc. rewrite parse_m_cons. cbv zeta.
+    rewrite (line_code w s tr Hw Hs Ht), probe_stmt, stmt_not_nil_hash, Hc, (line_indent w s tr Hw Hs). reflexivity.
   Qed.
 End Line.
 
 Definition mode_of_c (c : cstate) (base : nat) : pmode :=
   match c with CNone => MMain | CIf => MIf base | CTry => MTry base end.
 
-(* an elif / else / except line in the mode left by the preceding branch *)
+(* an elif / else / except line - with or without a trailing comment - in the mode left by the
+   preceding branch *)
 Lemma cont_step w h tr k c f rest :
-  ws_only w = true -> stmt_ok h = true -> is_blank tr = true ->
+  ws_only w = true -> stmt_ok h = true -> trail_ok true tr = true ->
   is_cont k = true -> hdr_ok k h = true -> accepts c k = true ->
   parse_m (S f) (mode_of_c c (indent_of w)) ((w ++ h ++ tr) :: rest) =
   NBlock k h (take_block (indent_of w) rest) (parse_m f MMain (take_block (indent_of w) rest))
     :: parse_m f (mode_of_c (after_kind k) (indent_of w)) (skipn (length (take_block (indent_of w) rest)) rest).
 Proof.
-  intros Hw Hs Hb Hk Hh Ha. rewrite parse_m_cons.
-  rewrite (line_strip_blank_trail w h tr Hw Hs Hb), (line_indent w h tr Hw Hs).
+  intros Hw Hs Ht Hk Hh Ha. rewrite parse_m_cons. cbv zeta.
+  rewrite (line_code w h tr Hw Hs Ht).
   destruct (stmt_parts h Hs) as (x & q & E & _).
   destruct k; try discriminate; destruct c; try discriminate; cbn [mode_of_c probe after_kind hdr_ok] in *.
-  - replace (is_nil h) with false by (rewrite E; reflexivity). rewrite ?(line_indent w h tr Hw Hs), Nat.eqb_refl. cbn [negb]. rewrite Hh. reflexivity.
-  - replace (is_nil h) with false by (rewrite E; reflexivity). rewrite ?(line_indent w h tr Hw Hs), Nat.eqb_refl. cbn [negb].
+  - replace (is_nil h) with false by (rewrite E; reflexivity). rewrite !(line_indent w h tr Hw Hs), Nat.eqb_refl. cbn [negb]. rewrite Hh. reflexivity.
+  - replace (is_nil h) with false by (rewrite E; reflexivity). rewrite !(line_indent w h tr Hw Hs), Nat.eqb_refl. cbn [negb].
     apply andb_true_iff in Hh as [He Hne]. apply negb_true_iff in Hne. rewrite Hne, He. reflexivity.
-  - replace (is_nil h) with false by (rewrite E; reflexivity). rewrite ?(line_indent w h tr Hw Hs), Nat.eqb_refl. cbn [negb]. rewrite Hh. reflexivity.
+  - replace (is_nil h) with false by (rewrite E; reflexivity). rewrite !(line_indent w h tr Hw Hs), Nat.eqb_refl. cbn [negb]. rewrite Hh. reflexivity.
 Qed.
 
 (* ================================================================ indentation of depth d *)
+
+Definition iind (ind : nat -> text) (d : nat) : nat := indent_of (ind d).
 
 Section Unit.
   Variable u : text.
@@ -337,22 +264,15 @@ Section Unit.
   Qed.
   Lemma stmt_line_not_deep d s tr : stmt_ok s = true -> deep (I d) (ind d ++ s ++ tr) = false.
   Proof.
-    intro Hs. unfold deep. rewrite (line_indent (ind d) s tr (ind_ws d) Hs), (line_not_blank (ind d) s tr Hs).
+    intro Hs. unfold deep. rewrite (line_indent (ind d) s tr (ind_ws d) Hs), (line_not_junk (ind d) s tr (ind_ws d) Hs).
     fold (iind ind d). fold (I d). cbn [orb]. apply Nat.ltb_irrefl.
   Qed.
 
-  Lemma junk_ok_deep d d' l : (d < d')%nat -> junk_ok (jbound ind d') l = true -> deep (I d) l = true.
-  Proof.
-    intros Hlt H. destruct d' as [|d'']; [lia|]. cbn [jbound] in H. unfold junk_ok in H.
-    apply andb_true_iff in H as [_ H]. apply (deep_weaken (I d) (iind ind d'')); [|exact H].
-    apply I_mono. lia.
-  Qed.
-
   (* every rendered line of a sequence at depth d' > d is deep w.r.t. depth d *)
-  Lemma render_deep d : forall n ns d' c top, (lsize ns <= n)%nat -> (d < d')%nat ->
-    wf_seq ind top d' c ns = true -> forallb (deep (I d)) (render_list ind d' ns) = true.
+  Lemma render_deep d : forall n ns d' c, (lsize ns <= n)%nat -> (d < d')%nat ->
+    wf_seq c ns = true -> forallb (deep (I d)) (render_list ind d' ns) = true.
   Proof.
-    induction n as [|n IH]; intros ns d' c top Hsz Hlt Hwf.
+    induction n as [|n IH]; intros ns d' c Hsz Hlt Hwf.
     - destruct ns as [|x r]; [reflexivity|]. cbn [lsize] in Hsz. pose proof (tsize_pos x). lia.
     - revert c Hsz Hwf. induction ns as [|x r IHr]; intros c Hsz Hwf; [reflexivity|].
       cbn [wf_seq] in Hwf. apply andb_true_iff in Hwf as [Hwf Hr]. apply andb_true_iff in Hwf as [Hx _].
@@ -361,17 +281,14 @@ Section Unit.
       + destruct x as [pre s tr|pre k h tr body].
         * cbn [wf_tree] in Hx. repeat (apply andb_true_iff in Hx as [Hx ?]).
           cbn [render]. rewrite forallb_app. apply andb_true_iff. split.
-          -- eapply forallb_impl; [|exact Hx]. intros l Hl. exact (junk_ok_deep d d' l Hlt Hl).
+          -- apply junk_all_deep. exact Hx.
           -- cbn [forallb]. rewrite (stmt_line_deep d d' s tr); [reflexivity|assumption|exact Hlt].
         * rewrite wf_tree_block in Hx. repeat (apply andb_true_iff in Hx as [Hx ?]).
           cbn [render]. rewrite forallb_app. apply andb_true_iff. split.
-          -- eapply forallb_impl; [|exact Hx]. intros l Hl. destruct (is_cont k).
-             ++ unfold junk_ok in Hl. apply andb_true_iff in Hl as [_ Hl].
-                apply (deep_weaken (I d) (iind ind d')); [|exact Hl]. apply I_mono. lia.
-             ++ exact (junk_ok_deep d d' l Hlt Hl).
+          -- apply junk_all_deep. exact Hx.
           -- cbn [forallb]. rewrite (stmt_line_deep d d' h tr); [|assumption|exact Hlt]. cbn [andb].
              rewrite tsize_block in Hsz.
-             apply (IH body (S d') CNone false); [lia|lia|assumption].
+             apply (IH body (S d') CNone); [lia|lia|assumption].
       + apply (IHr (after_node x)); [lia|exact Hr].
   Qed.
 
@@ -383,25 +300,22 @@ Section Unit.
   Definition node_tr (n : ltree) : text := match n with LLeaf _ _ tr => tr | LBlock _ _ _ tr _ => tr end.
   Definition node_rest (d : nat) (n : ltree) : list text :=
     match n with LLeaf _ _ _ => [] | LBlock _ _ _ _ body => render_list ind (S d) body end.
-  Definition node_cont (n : ltree) : bool := match n with LBlock _ k _ _ _ => is_cont k | _ => false end.
-  Definition node_bound (d : nat) (n : ltree) : option nat := if node_cont n then Some (I d) else jbound ind d.
 
   Lemma render_node d n : render ind d n = node_pre n ++ (ind d ++ node_stmt n ++ node_tr n) :: node_rest d n.
   Proof. destruct n; reflexivity. Qed.
 
-  Lemma wf_node top d n : wf_tree ind top d n = true ->
-    forallb (junk_ok (node_bound d n)) (node_pre n) = true /\ stmt_ok (node_stmt n) = true /\
-    forall B, forallb (junk_ok (node_bound d n)) B = true -> wf_tree ind top d (set_pre B n) = true.
+  Lemma wf_node n : wf_tree n = true ->
+    forallb junk (node_pre n) = true /\ stmt_ok (node_stmt n) = true /\ wf_tree (set_pre [] n) = true.
   Proof.
     destruct n as [pre s tr|pre k h tr body]; intro H.
     - cbn [wf_tree] in H. apply andb_true_iff in H as [H H5]. apply andb_true_iff in H as [H H4].
       apply andb_true_iff in H as [H H3]. apply andb_true_iff in H as [H1 H2].
-      unfold node_bound. cbn [node_cont node_pre node_stmt set_pre]. split; [exact H1|]. split; [exact H2|].
-      intros B HB. cbn [wf_tree]. rewrite HB, H2, H3, H4, H5. reflexivity.
+      cbn [node_pre node_stmt set_pre]. split; [exact H1|]. split; [exact H2|].
+      cbn [wf_tree forallb]. rewrite H2, H3, H4, H5. reflexivity.
     - rewrite wf_tree_block in H. apply andb_true_iff in H as [H H5]. apply andb_true_iff in H as [H H4].
       apply andb_true_iff in H as [H H3]. apply andb_true_iff in H as [H1 H2].
-      unfold node_bound. cbn [node_cont node_pre node_stmt set_pre]. fold (I d). split; [exact H1|]. split; [exact H2|].
-      intros B HB. rewrite wf_tree_block. fold (I d). rewrite HB, H2, H3, H4, H5. reflexivity.
+      cbn [node_pre node_stmt set_pre]. split; [exact H1|]. split; [exact H2|].
+      rewrite wf_tree_block. cbn [forallb]. rewrite H2, H3, H4, H5. reflexivity.
   Qed.
 
   Lemma lerase_set_pre B n : lerase (set_pre B n) = lerase n.
@@ -412,93 +326,61 @@ Section Unit.
   Proof. destruct n; reflexivity. Qed.
   Lemma after_set_pre B n : after_node (set_pre B n) = after_node n.
   Proof. destruct n; reflexivity. Qed.
-  Lemma cont_set_pre B n : node_cont (set_pre B n) = node_cont n.
-  Proof. destruct n; reflexivity. Qed.
-  Lemma pre_set_pre B n : node_pre (set_pre B n) = B.
-  Proof. destruct n; reflexivity. Qed.
 
-  Definition first_ok (m : pmode) (c : cstate) (d : nat) (ns : list ltree) : Prop :=
-    match ns with
-    | n :: _ => node_cont n = true -> node_pre n = [] /\ m = mode_of_c c (I d)
-    | [] => True
-    end.
-
-  Lemma first_ok_CNone top d m ns : wf_seq ind top d CNone ns = true -> first_ok m CNone d ns.
-  Proof.
-    destruct ns as [|n r]; [exact (fun _ => Logic.I)|]. cbn [wf_seq first_ok]. intros H Hc.
-    apply andb_true_iff in H as [H _]. apply andb_true_iff in H as [_ Ha].
-    destruct n as [|pre k h tr body]; [discriminate|]. cbn [node_cont accepts_node] in *.
-    destruct k; discriminate.
-  Qed.
-
-  Lemma forallb_and {A} (P Q R : A -> bool) l :
-    (forall x, P x = true -> Q x = true -> R x = true) -> forallb P l = true -> forallb Q l = true -> forallb R l = true.
-  Proof. intros H HP HQ. rewrite forallb_forall in *. intros x Hx. apply H; [apply HP|apply HQ]; exact Hx. Qed.
-
-  Lemma junk_deep_ok d b l : junk_ok b l = true -> deep (I d) l = true -> junk_ok (jbound ind (S d)) l = true.
-  Proof.
-    intros Hj Hd. cbn [jbound]. unfold junk_ok. rewrite (junk_ok_junk b l Hj). fold (I d). rewrite Hd. reflexivity.
-  Qed.
-
+  (* the statement proved by induction on the fuel: a sequence at depth d, followed by junk lines,
+     parsed in the mode left by what precedes it (after an if / elif branch: the elif/else probe;
+     after a try / except branch: the except probe) *)
   Definition main_stmt (f : nat) : Prop :=
-    forall ns d c m js,
+    forall ns d c js,
       (lsize ns <= f)%nat ->
-      wf_seq ind false d c ns = true ->
-      forallb (junk_ok (jbound ind d)) js = true ->
-      (m = MMain \/ m = mode_of_c c (I d)) ->
-      first_ok m c d ns ->
-      map erase (parse_m f m (render_list ind d ns ++ js)) = map lerase ns.
+      wf_seq c ns = true ->
+      forallb junk js = true ->
+      map erase (parse_m f (mode_of_c c (I d)) (render_list ind d ns ++ js)) = map lerase ns.
 
   Lemma block_tail f (IH : main_stmt f) d c' body r js :
     (lsize body <= f)%nat -> (lsize r <= f)%nat ->
-    wf_seq ind false (S d) CNone body = true ->
-    wf_seq ind false d c' r = true ->
-    forallb (junk_ok (jbound ind d)) js = true ->
+    wf_seq CNone body = true ->
+    wf_seq c' r = true ->
+    forallb junk js = true ->
     let rest := render_list ind (S d) body ++ render_list ind d r ++ js in
     let blk := take_block (I d) rest in
     map erase (parse_m f MMain blk) = map lerase body /\
     map erase (parse_m f (mode_of_c c' (I d)) (skipn (length blk) rest)) = map lerase r.
   Proof.
     intros Hsb Hsr Hwb Hwr Hjs rest blk. subst blk. rewrite skipn_take_block. subst rest.
-    pose proof (render_deep d (lsize body) body (S d) CNone false (le_n _) (Nat.lt_succ_diag_r d) Hwb) as Hdeep.
+    pose proof (render_deep d (lsize body) body (S d) CNone (le_n _) (Nat.lt_succ_diag_r d) Hwb) as Hdeep.
     rewrite (take_block_app _ _ _ Hdeep), (drop_block_app _ _ _ Hdeep).
     destruct r as [|n2 r2].
     - cbn [render_list flat_map app].
-      destruct (split_pre (I d) (junk_ok (jbound ind d)) js Hjs) as (A & B & E & HA & HPA & HPB & _ & [Ht Hd] & _).
+      destruct (take_block_all (I d) js (junk_all_deep _ _ Hjs)) as [Ht Hd].
       rewrite Ht, Hd. split.
-      + apply (IH body (S d) CNone MMain); [exact Hsb|exact Hwb| |left; reflexivity|exact (first_ok_CNone false (S d) MMain body Hwb)].
-        eapply forallb_and; [|exact HPA|exact HA]. intros x Hx Hdx. exact (junk_deep_ok d _ x Hx Hdx).
-      + rewrite parse_all_junk; [reflexivity|]. eapply forallb_impl; [|exact HPB]. intros x Hx. exact (junk_ok_junk _ x Hx).
+      + exact (IH body (S d) CNone js Hsb Hwb Hjs).
+      + rewrite parse_all_junk; reflexivity.
     - cbn [wf_seq] in Hwr. apply andb_true_iff in Hwr as [Hw2 Hwr2]. apply andb_true_iff in Hw2 as [Hw2 Hacc].
-      destruct (wf_node false d n2 Hw2) as (Hpre2 & Hst2 & Hset).
+      destruct (wf_node n2 Hw2) as (Hpre2 & Hst2 & Hset).
       assert (EW : render_list ind d (n2 :: r2) ++ js =
                    node_pre n2 ++ (ind d ++ node_stmt n2 ++ node_tr n2) :: node_rest d n2 ++ render_list ind d r2 ++ js).
       { unfold render_list. cbn [flat_map]. rewrite render_node. rewrite <- !app_assoc. cbn [app]. rewrite <- ?app_assoc. reflexivity. }
       rewrite EW.
-      destruct (split_pre (I d) (junk_ok (node_bound d n2)) (node_pre n2) Hpre2) as (A & B & E & HA & HPA & HPB & Hall & _ & Hs).
-      destruct (Hs (ind d ++ node_stmt n2 ++ node_tr n2) (node_rest d n2 ++ render_list ind d r2 ++ js)
-                   (stmt_line_not_deep d _ _ Hst2)) as [Ht Hd].
-      unfold text in *. rewrite Ht, Hd. split.
-      + apply (IH body (S d) CNone MMain); [exact Hsb|exact Hwb| |left; reflexivity|exact (first_ok_CNone false (S d) MMain body Hwb)].
-        eapply forallb_and; [|exact HPA|exact HA]. intros x Hx Hdx. exact (junk_deep_ok d _ x Hx Hdx).
-      + assert (ER : B ++ (ind d ++ node_stmt n2 ++ node_tr n2) :: node_rest d n2 ++ render_list ind d r2 ++ js
-                     = render_list ind d (set_pre B n2 :: r2) ++ js).
+      pose proof (junk_all_deep (I d) _ Hpre2) as Hpd.
+      rewrite (take_block_app _ _ _ Hpd), (drop_block_app _ _ _ Hpd).
+      rewrite take_block_deep. cbn [drop_block]. rewrite (stmt_line_not_deep d _ _ Hst2). rewrite app_nil_r.
+      split.
+      + exact (IH body (S d) CNone (node_pre n2) Hsb Hwb Hpre2).
+      + assert (ER : (ind d ++ node_stmt n2 ++ node_tr n2) :: node_rest d n2 ++ render_list ind d r2 ++ js
+                     = render_list ind d (set_pre [] n2 :: r2) ++ js).
         { unfold render_list. cbn [flat_map]. rewrite render_node.
-          replace (node_pre (set_pre B n2)) with B by (destruct n2; reflexivity).
-          replace (node_stmt (set_pre B n2)) with (node_stmt n2) by (destruct n2; reflexivity).
-          replace (node_tr (set_pre B n2)) with (node_tr n2) by (destruct n2; reflexivity).
-          replace (node_rest d (set_pre B n2)) with (node_rest d n2) by (destruct n2; reflexivity).
-          rewrite <- !app_assoc. cbn [app]. rewrite <- ?app_assoc. reflexivity. }
+          replace (node_pre (set_pre [] n2)) with (@nil text) by (destruct n2; reflexivity).
+          replace (node_stmt (set_pre [] n2)) with (node_stmt n2) by (destruct n2; reflexivity).
+          replace (node_tr (set_pre [] n2)) with (node_tr n2) by (destruct n2; reflexivity).
+          replace (node_rest d (set_pre [] n2)) with (node_rest d n2) by (destruct n2; reflexivity).
+          cbn [app]. rewrite <- ?app_assoc. reflexivity. }
         unfold text in *. rewrite ER.
-        replace (map lerase (n2 :: r2)) with (map lerase (set_pre B n2 :: r2)) by (cbn [map]; rewrite lerase_set_pre; reflexivity).
-        apply (IH (set_pre B n2 :: r2) d c' (mode_of_c c' (I d)) js).
+        replace (map lerase (n2 :: r2)) with (map lerase (set_pre [] n2 :: r2)) by (cbn [map]; rewrite lerase_set_pre; reflexivity).
+        apply (IH (set_pre [] n2 :: r2) d c' js).
         * cbn [lsize] in *. rewrite tsize_set_pre. exact Hsr.
-        * cbn [wf_seq]. rewrite (Hset B HPB), accepts_set_pre, Hacc, after_set_pre, Hwr2. reflexivity.
+        * cbn [wf_seq]. rewrite accepts_set_pre, Hacc, after_set_pre, Hwr2, !andb_true_r. exact Hset.
         * exact Hjs.
-        * right. reflexivity.
-        * cbn [first_ok]. rewrite cont_set_pre, pre_set_pre. intro Hc. split; [|reflexivity].
-          apply Hall. unfold node_bound in Hpre2. rewrite Hc in Hpre2.
-          eapply forallb_impl; [|exact Hpre2]. intros x Hx. unfold junk_ok in Hx. apply andb_true_iff in Hx as [_ Hx]. exact Hx.
   Qed.
 
   Lemma mode_after_nc k b : is_cont k = false -> mode_after k b = mode_of_c (after_kind k) b.
@@ -516,11 +398,10 @@ Section Unit.
 
   Lemma main_all : forall f, main_stmt f.
   Proof.
-    induction f as [|f IHf]; unfold main_stmt; intros ns d c m js Hsz Hwf Hjs Hm Hfirst.
+    induction f as [|f IHf]; unfold main_stmt; intros ns d c js Hsz Hwf Hjs.
     - destruct ns as [|x r]; [reflexivity|]. cbn [lsize] in Hsz. pose proof (tsize_pos x). lia.
-    - revert c m Hsz Hwf Hm Hfirst. induction ns as [|x r IHr]; intros c m Hsz Hwf Hm Hfirst.
-      + cbn [render_list flat_map app map]. rewrite parse_all_junk; [reflexivity|].
-        eapply forallb_impl; [|exact Hjs]. intros l Hl. exact (junk_ok_junk _ l Hl).
+    - revert c Hsz Hwf. induction ns as [|x r IHr]; intros c Hsz Hwf.
+      + cbn [render_list flat_map app map]. rewrite parse_all_junk; [reflexivity|exact Hjs].
       + cbn [wf_seq] in Hwf. apply andb_true_iff in Hwf as [Hwf Hr]. apply andb_true_iff in Hwf as [Hx Hacc].
         cbn [lsize] in Hsz.
         assert (EW : render_list ind d (x :: r) ++ js =
@@ -532,14 +413,11 @@ Section Unit.
           cbn [wf_tree] in Hx. apply andb_true_iff in Hx as [Hx H5]. apply andb_true_iff in Hx as [Hx H4].
           apply andb_true_iff in Hx as [Hx H3]. apply andb_true_iff in Hx as [H1 H2].
           cbn [node_pre node_stmt node_tr node_rest app].
-          assert (Hjunk : forallb junk pre = true).
-          { eapply forallb_impl; [|exact H1]. intros l Hl. exact (junk_ok_junk _ l Hl). }
-          destruct (skip_pre f pre m ((ind d ++ s ++ tr) :: render_list ind d r ++ js) Hjunk) as (m' & _ & _ & E).
-          rewrite E. rewrite (leaf_step (ind d) s tr (ind_ws d) H2 H4 f m' _ H5).
+          rewrite (skip_pre f pre _ _ H1).
+          rewrite (leaf_step (ind d) s tr (ind_ws d) H2 H4 H5 f _ _).
           2:{ destruct (classify s); [discriminate|reflexivity]. }
           cbn [map erase lerase]. f_equal.
-          apply (IHr CNone MMain); [pose proof (tsize_pos (LLeaf pre s tr)); cbn [tsize] in *; lia|exact Hr|left; reflexivity|].
-          exact (first_ok_CNone false d MMain r Hr).
+          apply (IHr CNone); [pose proof (tsize_pos (LLeaf pre s tr)); cbn [tsize] in *; lia|exact Hr].
         * (* a block *)
           rewrite wf_tree_block in Hx. apply andb_true_iff in Hx as [Hx H5]. apply andb_true_iff in Hx as [Hx H4].
           apply andb_true_iff in Hx as [Hx H3]. apply andb_true_iff in Hx as [H1 H2].
@@ -548,21 +426,13 @@ Section Unit.
           cbn [after_node] in Hr. cbn [accepts_node] in Hacc.
           assert (Htail := block_tail f IHf d (after_kind k) body r js ltac:(lia) ltac:(lia) H5 Hr Hjs).
           cbv zeta in Htail. destruct Htail as [Hb Hc].
+          rewrite (skip_pre f pre _ _ H1).
           destruct (is_cont k) eqn:Ek.
-          -- (* elif / else / except *)
-             cbn [first_ok node_cont node_pre] in Hfirst. destruct (Hfirst Ek) as [Hp Hmm]. subst pre m.
-             cbn [app]. cbn [negb andb] in H4.
-             assert (Hbl : is_blank tr = true).
-             { unfold trail_ok in H4. cbn [andb] in H4. rewrite orb_false_r in H4. exact H4. }
+          -- (* elif / else / except, reached in the mode of the preceding branch *)
              change (I d) with (indent_of (ind d)).
-             rewrite (cont_step (ind d) h tr k c f _ (ind_ws d) H2 Hbl Ek H3 Hacc).
+             rewrite (cont_step (ind d) h tr k c f _ (ind_ws d) H2 H4 Ek H3 Hacc).
              cbn [map erase lerase]. change (indent_of (ind d)) with (I d). unfold text in *. rewrite Hb, Hc. reflexivity.
-          -- assert (Hjunk : forallb junk pre = true).
-             { eapply forallb_impl; [|exact H1]. intros l Hl. exact (junk_ok_junk _ l Hl). }
-             destruct (skip_pre f pre m ((ind d ++ h ++ tr) :: render_list ind (S d) body ++ render_list ind d r ++ js) Hjunk)
-               as (m' & _ & _ & E).
-             rewrite E. cbn [negb andb] in H4.
-             rewrite (block_step (ind d) h tr (ind_ws d) H2 (hdr_ok_nc_nocont k h Ek H3) f m' _ k H4 (hdr_ok_nc k h Ek H3)).
+          -- rewrite (block_step (ind d) h tr (ind_ws d) H2 (hdr_ok_nc_nocont k h Ek H3) H4 f _ _ k (hdr_ok_nc k h Ek H3)).
              rewrite (mode_after_nc k _ Ek).
              cbn [map erase lerase]. change (indent_of (ind d)) with (I d). unfold text in *. rewrite Hb, Hc. reflexivity.
   Qed.
@@ -584,17 +454,15 @@ Section Unit.
 
   (* the round trip for a snippet handed to _parse_simple_lines *)
   Lemma parse_render_nested : forall ns,
-    wf_seq ind false O CNone ns = true ->
+    wf_seq CNone ns = true ->
     map erase (parse_lines (render_list ind O ns)) = map lerase ns.
   Proof.
     intros ns Hwf. unfold parse_lines.
     rewrite <- (app_nil_r (render_list ind 0 ns)) at 2.
-    apply (main_all (S (length (render_list ind 0 ns))) ns O CNone MMain []).
+    apply (main_all (S (length (render_list ind 0 ns))) ns O CNone []).
     - pose proof (lsize_le_length (lsize ns) ns O (le_n _)). lia.
     - exact Hwf.
     - reflexivity.
-    - left. reflexivity.
-    - exact (first_ok_CNone false O MMain ns Hwf).
   Qed.
 End Unit.
 
@@ -615,3 +483,80 @@ Proof.
   intros u1 u2 ns1 ns2 H1 H2 E.
   rewrite (parse_render_roundtrip u1 ns1 H1), (parse_render_roundtrip u2 ns2 H2). exact E.
 Qed.
+
+(* ================================================================ column 0 of the script: parse() *)
+
+Lemma top_parse_cons f raw rest :
+  top_parse (S f) (raw :: rest) =
+  let t := strip (strip_inline_comment raw) in
+  if is_nil t || starts_hash t then top_parse f rest
+  else if top_import t then top_parse f rest
+  else if (indent_of raw =? 0)%nat && re_while_true t then
+    let blk := take_block O rest in
+    TLoop blk (parse_lines blk) :: top_parse f (skipn (length blk) rest)
+  else if (indent_of raw =? 0)%nat && re_while t then
+    let blk := take_block O rest in
+    TSetup (raw :: blk) (parse_lines (raw :: blk)) :: top_parse f (skipn (length blk) rest)
+  else if (indent_of raw =? 0)%nat && re_def t then
+    let blk := take_block O rest in
+    TDef t blk (parse_lines blk) :: top_parse f (skipn (length blk) rest)
+  else if (indent_of raw =? 0)%nat && re_for_range t then
+    let blk := take_block O rest in
+    TSetup (raw :: blk) (parse_lines (raw :: blk)) :: top_parse f (skipn (length blk) rest)
+  else if re_if t then
+    let sn := struct_scan re_elif_or_else (indent_of raw) true rest in
+    TSetup (raw :: sn) (parse_lines (raw :: sn)) :: top_parse f (skipn (length sn) rest)
+  else if re_try t then
+    let sn := struct_scan re_except (indent_of raw) true rest in
+    TSetup (raw :: sn) (parse_lines (raw :: sn)) :: top_parse f (skipn (length sn) rest)
+  else TSetup [raw] (parse_lines [raw]) :: top_parse f rest.
+Proof. reflexivity. Qed.
+
+Lemma trail_ok_nil : trail_ok true [] = true.
+Proof. reflexivity. Qed.
+
+Section TopLine.
+  Variables (h tr : text).
+  Hypothesis Hs : stmt_ok h = true.
+  Hypothesis Ht : trail_ok true tr = true.
+
+  Lemma raw_code : strip (strip_inline_comment (h ++ tr)) = h.
+  Proof. exact (line_code [] h tr eq_refl Hs Ht). Qed.
+  Lemma raw_code_plain : strip (strip_inline_comment h) = h.
+  Proof. pose proof (line_code [] h [] eq_refl Hs trail_ok_nil) as E. cbn [app] in E. rewrite app_nil_r in E. exact E. Qed.
+  Lemma raw_indent : indent_of (h ++ tr) = indent_of h.
+  Proof.
+    pose proof (line_indent [] h tr eq_refl Hs) as E1. pose proof (line_indent [] h [] eq_refl Hs) as E2.
+    cbn [app] in E1, E2. rewrite app_nil_r in E2. rewrite E1, E2. reflexivity.
+  Qed.
+
+  (* _parse_simple_lines does not see the trailing comment of the first line of its snippet *)
+  Lemma parse_lines_head rest : parse_lines ((h ++ tr) :: rest) = parse_lines (h :: rest).
+  Proof.
+    unfold parse_lines. cbn [length]. rewrite !parse_m_cons. cbv zeta.
+    rewrite raw_code, raw_code_plain, raw_indent. reflexivity.
+  Qed.
+
+  (* nor does parse(): whatever the first line is (main loop, while, for, def, if, try, import, a
+     simple statement), a trailing comment on it changes neither the block it opens, nor the
+     function, nor the phase (setup / loop) of what follows *)
+  Lemma top_trailing_comment body :
+    map erase_item (parse_top ((h ++ tr) :: body)) = map erase_item (parse_top (h :: body)).
+  Proof.
+    unfold parse_top. cbn [length]. rewrite !top_parse_cons. cbv zeta.
+    rewrite raw_code, raw_code_plain, raw_indent.
+    destruct (is_nil h || starts_hash h); [reflexivity|].
+    destruct (top_import h); [reflexivity|].
+    destruct ((indent_of h =? 0)%nat && re_while_true h); [reflexivity|].
+    destruct ((indent_of h =? 0)%nat && re_while h).
+    { cbn [map erase_item]. rewrite parse_lines_head. reflexivity. }
+    destruct ((indent_of h =? 0)%nat && re_def h); [reflexivity|].
+    destruct ((indent_of h =? 0)%nat && re_for_range h).
+    { cbn [map erase_item]. rewrite parse_lines_head. reflexivity. }
+    destruct (re_if h).
+    { cbn [map erase_item]. rewrite parse_lines_head. reflexivity. }
+    destruct (re_try h).
+    { cbn [map erase_item]. rewrite parse_lines_head. reflexivity. }
+    cbn [map erase_item]. rewrite parse_lines_head. reflexivity.
+  Qed.
+End TopLine.
